@@ -26,7 +26,8 @@ BM_ID = 5
 
 def bm_id(mode, fam):
     """the on-chain big_map: id 5, and id 0 (the first big_map of a chain is a big_map like any other) for the in-place families other than string"""
-    return 0 if (mode == 'existing' and fam != 'string') else BM_ID
+    # (not when the run also creates a second big_map: the interpreter numbers new big_maps from 0, which on a real chain would be an id above all existing ones)
+    return 0 if (mode == 'existing' and fam != 'string' and NEST[0] != 'sibling') else BM_ID
 
 
 def zarith(n):
